@@ -31,6 +31,7 @@ type Obligation struct {
 	Bytes   int
 	Model   string
 	Excused string // known-finding id when proved under ¬excuse
+	Extra   []string // definitions appended after the prefix (excuse / observable terms)
 	Raw     string
 }
 
@@ -969,11 +970,17 @@ func computeRanks(fn *ssa.Function) map[string]map[token.Pos]int {
 }
 
 func shortFn(fn *ssa.Function) string {
-	s := fn.String()
-	if i := strings.LastIndex(s, "/"); i >= 0 {
-		s = s[i+1:]
+	if o, ok := fn.Object().(*types.Func); ok && o != nil {
+		sig := o.Type().(*types.Signature)
+		if sig.Recv() != nil {
+			return recvShort(sig.Recv().Type()) + "." + o.Name()
+		}
+		if o.Pkg() != nil {
+			return o.Pkg().Name() + "." + o.Name()
+		}
+		return o.Name()
 	}
-	return s
+	return fn.Name()
 }
 
 func (e *Enc) addPanic(fr *Frame, st *State, kind, cond, desc string, pos token.Pos) {
